@@ -63,22 +63,48 @@ Proof.
 Qed.
 End HypR.
 
-Theorem lapjv_ref_fixed_optimal n tri :
+(* phases 1-3 establish Inv (finite prices) when every row has >= 2 candidates OR no augmenting row reduction pass is run *)
+Lemma phases123_inv_k n tri :
+  (forall t, In t tri -> (t_i t < n)%nat /\ (t_j t < n)%nat) ->
+  NoDup (map fst tri) ->
+  (forall j, (j < n)%nat -> exists t, In t tri /\ t_j t = j) ->
+  forall epsr fuel k x y v ii,
+  (k = 0%nat \/ forall i, (i < n)%nat -> (2 <= length (filter (fun t => (t_i t =? i)%nat) tri))%nat) ->
+  0 <= epsr ->
+  let rows := rows_of n tri in
+  let mi := min_i n tri in
+  let x0 := x_init n mi in
+  let y0 := y_init n x0 in
+  let uv := reduction_transfer Fixed n rows (jflat_of rows) x0 (one_rows n mi) (repeat (Fin 0) n) (v_init n tri) in
+  match free_rows n mi with
+  | [] => Some (x0, y0, snd uv, free_rows n mi)
+  | _ => arr_passes k fuel (Fin 0) (Fin epsr) n rows (x0, y0, snd uv, free_rows n mi)
+  end = Some (x, y, v, ii) ->
+  Inv n rows x y v /\ Pending n y ii.
+Proof.
+  intros Hrange Hpairs Hcols epsr fuel k x y v ii [Ek|Hc2] Her.
+  - rewrite Ek. cbn zeta. destruct (phase12_inv n tri Hrange Hcols) as [HI HP]. cbn [arr_passes].
+    destruct (free_rows n (min_i n tri)) eqn:EF; intros E; injection E as <- <- <- <-; split; auto.
+  - apply (phases123_inv n tri Hrange Hpairs Hcols Hc2 epsr fuel k x y v ii Her).
+Qed.
+
+Theorem lapjv_ref_fixed_optimal_gen n tri :
   (forall t, In t tri -> (t_i t < n)%nat /\ (t_j t < n)%nat) ->
   NoDup (map fst tri) ->
   (forall j, (j < n)%nat -> exists t, In t tri /\ t_j t = j) ->
   has_PM n tri ->
-  (forall i, (i < n)%nat -> (2 <= length (filter (fun t => (t_i t =? i)%nat) tri))%nat) ->
-  forall epsr k x y u v, 0 <= epsr ->
+  forall epsr k x y u v,
+  (k = 0%nat \/ forall i, (i < n)%nat -> (2 <= length (filter (fun t => (t_i t =? i)%nat) tri))%nat) ->
+  0 <= epsr ->
   lapjv_ref Fixed 0 epsr k n tri = Some (x, y, u, v) -> Optimal n tri x.
 Proof.
-  intros Hrange Hpairs Hcols HPM Hc2 epsr k x y u v Her E.
+  intros Hrange Hpairs Hcols HPM epsr k x y u v Hc2 Her E.
   assert (DH : DistHyp n (rows_of n tri) PInf) by (apply aug_dist_invR; [apply (rows_fin n tri Hrange)|apply (rows_nodup n tri Hpairs)]).
   destruct (lapjv_ref_fixed_pm n tri Hrange Hpairs Hcols HPM epsr k x y u v Her E) as [PMx Inv'].
   (* the final state satisfies Inv *)
   assert (FI : exists vf, Inv n (rows_of n tri) x y vf).
   { unfold lapjv_ref in E.
-    pose proof (phases123_inv n tri Hrange Hpairs Hcols Hc2 epsr (arr_fuel n tri) k) as P123. cbn zeta in P123.
+    pose proof (fun x y v ii => phases123_inv_k n tri Hrange Hpairs Hcols epsr (arr_fuel n tri) k x y v ii Hc2) as P123. cbn zeta in P123.
     destruct (reduction_transfer Fixed n (rows_of n tri) (jflat_of (rows_of n tri)) (x_init n (min_i n tri))
                 (one_rows n (min_i n tri)) (repeat (Fin 0) n) (v_init n tri)) as [u1 v1]. cbn [snd] in P123.
     destruct (match free_rows n (min_i n tri) with
@@ -115,6 +141,19 @@ Proof.
       apply (row_in_tri n tri). exact Hc0. }
     rewrite Ec0. lia.
   - intros i Hi. lia.
+Qed.
+
+Theorem lapjv_ref_fixed_optimal n tri :
+  (forall t, In t tri -> (t_i t < n)%nat /\ (t_j t < n)%nat) ->
+  NoDup (map fst tri) ->
+  (forall j, (j < n)%nat -> exists t, In t tri /\ t_j t = j) ->
+  has_PM n tri ->
+  (forall i, (i < n)%nat -> (2 <= length (filter (fun t => (t_i t =? i)%nat) tri))%nat) ->
+  forall epsr k x y u v, 0 <= epsr ->
+  lapjv_ref Fixed 0 epsr k n tri = Some (x, y, u, v) -> Optimal n tri x.
+Proof.
+  intros Hrange Hpairs Hcols HPM Hc2 epsr k x y u v Her E.
+  apply (lapjv_ref_fixed_optimal_gen n tri Hrange Hpairs Hcols HPM epsr k x y u v (or_intror Hc2) Her E).
 Qed.
 
 Corollary lapjv_ref_fixed_optimal_grid n tri g eps epsr k x y u v :
